@@ -1,5 +1,5 @@
 """C07 — RSA-OAEP and PKCS#1 v1.5 encryption (structural slice)."""
-from ..absval import ABytes, UNK
+from ..absval import ABytes, UNK, Unknown
 from ..absint import Interp
 from ..absstate import State
 from ..rules_g import (Row, run_row, ObsRow, run_obs, I, S, Pred, OBJ, B, INT,
@@ -18,6 +18,124 @@ EXPLANATION = (
 OAEP = "Crypto.Cipher.PKCS1_OAEP"
 V15 = "Crypto.Cipher.PKCS1_v1_5"
 N1024 = (1 << 1023) + 12345
+
+
+def oaep_value_rows(check, repo):
+    """RSAES-OAEP as byte strings (RFC 8017 7.1.1 / 7.1.2) with the hash and the MGF replaced by fixed injective
+    stand-ins and the RSA primitive by the identity: encrypt() must hand EM = 00 || maskedSeed || maskedDB to the
+    primitive and return it as k bytes, for every message length 0..k-2hLen-2 and modulus sizes of every residue
+    modulo 8; decrypt() of that must give the message back (the native oaep_decode replaced by the checker's
+    reference of its contract; the native code itself is decided by K-pw|c|pkcs1.oaep_decode)."""
+    import hashlib
+    from ..absval import ABuiltin
+    mod = repo.module(OAEP)
+    cls = repo.cls(mod, "PKCS1OAEP_Cipher")
+    f_enc, f_dec = repo.func(mod, "PKCS1OAEP_Cipher.encrypt"), repo.func(mod, "PKCS1OAEP_Cipher.decrypt")
+
+    def H(data, hl):
+        return hashlib.sha512(b"toyhash" + bytes(data)).digest()[:hl]
+
+    def MGF(seed, ln):
+        out, c = b"", 0
+        while len(out) < ln:
+            out += hashlib.sha512(b"toymgf" + bytes(seed) + bytes([c])).digest()
+            c += 1
+        return out[:ln]
+
+    def m_mgf(i, a, kw, st, node):
+        if len(a) == 2 and isinstance(a[0], (bytes, bytearray)) and isinstance(a[1], int):
+            return MGF(a[0], a[1])
+        return ABytes(None)
+    wrong = []
+    n = 0
+    for hl in (2, 3):
+        for label in (b"", b"label"):
+            for modBits in (8 * (2 * hl + 2) + r for r in (-7, -3, 0, 1, 5, 8, 17, 40)):
+                k = (modBits + 7) // 8
+                if k < 2 * hl + 2:
+                    continue
+                seed = bytes((0xC0 + i) & 0xFF for i in range(hl))
+                for mLen in sorted(set([0, 1, k - 2 * hl - 2, max(0, k - 2 * hl - 3), k - 2 * hl - 1])):
+                    msg = bytes((0x41 + i) & 0xFF for i in range(mLen))
+
+                    def m_new(i, base, a, kw, st, node):
+                        o = i.new_obj(st, label="hash")
+                        st.heap[o.ident].update({"data": bytes(a[0]) if a and isinstance(a[0], (bytes, bytearray)) else b"", "digest_size": hl})
+                        return o
+
+                    def m_digest(i, base, a, kw, st, node):
+                        d = st.heap.get(getattr(base, "ident", -1), {}).get("data")
+                        return H(d, hl) if isinstance(d, (bytes, bytearray)) else ABytes(hl)
+                    seen = {}
+
+                    def m_encrypt(i, base, a, kw, st, node, seen=seen):
+                        seen["em_int"] = a[0] if a else None
+                        return a[0] if a else UNK
+
+                    def setup():
+                        it = Interp(repo, max_depth=6, extra_models={"vstat.toymgf": m_mgf, "vstat.seed": lambda i, a, kw, st, node: seed,
+                                                                    "Crypto.Cipher._pkcs1_oaep_decode.oaep_decode": m_oaep_decode},
+                                    method_models={"new": m_new, "digest": m_digest, "_encrypt": m_encrypt, "_decrypt_to_bytes": m_decrypt})
+                        st = State()
+                        me = it.new_obj(st, mod, cls, havoc=False)
+                        hobj = it.new_obj(st, label="hashobj")
+                        st.heap[hobj.ident].update({"digest_size": hl})
+                        key = it.new_obj(st, label="key")
+                        st.heap[key.ident].update({"n": (1 << (modBits - 1)) + 12345})
+                        st.heap[me.ident].update({"_key": key, "_hashObj": hobj, "_label": label, "_mgf": ABuiltin("vstat.toymgf"), "_randfunc": ABuiltin("vstat.seed")})
+                        return it, st, me
+
+                    def m_decrypt(i, base, a, kw, st, node):
+                        v = a[0] if a else None
+                        return v.to_bytes(k, "big") if isinstance(v, int) and v < (1 << (8 * k)) else ABytes(k)
+
+                    def m_oaep_decode(i, a, kw, st, node):
+                        # contract of oaep_decode(em, lHash, db): index of the message inside db, or a negative value
+                        em, lh, db = (list(a) + [None] * 3)[:3]
+                        if not all(isinstance(x, (bytes, bytearray)) for x in (em, lh, db)):
+                            return Unknown("int")
+                        if em[0] != 0 or bytes(db[:len(lh)]) != bytes(lh):
+                            return -1
+                        rest = bytes(db[len(lh):])
+                        z = len(rest) - len(rest.lstrip(b"\x00"))
+                        if z == len(rest) or rest[z] != 1:
+                            return -1
+                        return len(lh) + z + 1
+                    it, st, me = setup()
+                    res = it.run(mod, f_enc, {"message": msg}, self_obj=me, state=st)
+                    n += 1
+                    if mLen > k - 2 * hl - 2:
+                        if not (res.rejected() and set(res.raise_classes()) <= {"ValueError"}):
+                            wrong.append("encrypt of %d bytes with k=%d, hLen=%d is not refused" % (mLen, k, hl))
+                        continue
+                    r = res.returns()
+                    got = bytes(r[0].value) if len(r) == 1 and isinstance(r[0].value, (bytes, bytearray)) and not res.raises() else None
+                    lh = H(label, hl)
+                    db = lh + bytes(k - mLen - 2 * hl - 2) + b"\x01" + msg
+                    mdb = bytes(x ^ y for x, y in zip(db, MGF(seed, k - hl - 1)))
+                    ms = bytes(x ^ y for x, y in zip(seed, MGF(mdb, hl)))
+                    want = b"\x00" + ms + mdb
+                    if got != want or seen.get("em_int") != int.from_bytes(want, "big"):
+                        wrong.append("encrypt(%d bytes, k=%d (modBits %d), hLen=%d): %s, RFC 8017 7.1.1 gives EM %s" % (mLen, k, modBits, hl, got.hex() if got else res.raise_classes(), want.hex()))
+                        continue
+                    it, st, me = setup()
+                    res = it.run(mod, f_dec, {"ciphertext": want}, self_obj=me, state=st)
+                    n += 1
+                    r = res.returns()
+                    back = bytes(r[0].value) if len(r) == 1 and isinstance(r[0].value, (bytes, bytearray)) and not res.raises() else None
+                    if back != msg:
+                        wrong.append("decrypt(encrypt(%d bytes)), k=%d, hLen=%d: %r" % (mLen, k, hl, back if back is not None else res.raise_classes()))
+                    # a ciphertext whose DB does not start with lHash must be refused (the other label)
+                    it, st, me = setup()
+                    st.heap[me.ident]["_label"] = label + b"x"
+                    res = it.run(mod, f_dec, {"ciphertext": want}, self_obj=me, state=st)
+                    n += 1
+                    if not (res.rejected() and set(res.raise_classes()) <= {"ValueError"}):
+                        wrong.append("decrypt under another label, k=%d, hLen=%d: not refused" % (k, hl))
+    check.ob("K-pw", "K-pw|oaep.eme.bytes", not wrong, mod.path, f_enc.lineno,
+             extracted=("%d of %d rows differ: " % (len(wrong), n) + "; ".join(wrong[:3])) if wrong else "%d rows: EM byte for byte as RFC 8017 7.1.1 for every modulus size mod 8 and message length 0..max; decrypt inverts it; another label is refused" % n,
+             expected="EME-OAEP: EM = 00 || (seed xor MGF(maskedDB)) || ((lHash || PS || 01 || M) xor MGF(seed)), as k bytes; decrypt(encrypt(M)) == M")
+    check.count("oaep_rows", n)
 
 
 def run(check, ctx):
@@ -167,6 +285,7 @@ def run(check, ctx):
     check.ob("K-pw", "K-pw|rsa.k", not wrong, rmod.path, fnk.lineno,
              extracted="; ".join(wrong[:3]) if wrong else "8 modulus sizes around multiples of 8: k = ceil(modBits / 8)",
              expected="RFC 8017: k is the length in octets of the modulus (rounded up); message limits and ciphertext length are stated in k")
+    oaep_value_rows(check, repo)
     # ---- the RSA primitives on complete toy moduli (CRT, blinding, byte conversion) -----------------
     from .c04_extra import rsa_toy_rows
     rsa_toy_rows(check, repo, thorough=ctx.tier == "thorough")
